@@ -1,0 +1,65 @@
+//go:build verif
+
+// Contracts for package replication (comment-only; compiled only with the build tag "verif",
+// read by /verif/engine). Properties C05, C15.
+
+package replication
+
+//@ import atomic "sync/atomic"
+//@ import prometheus "github.com/prometheus/client_golang/prometheus"
+
+// sync/atomic.Bool in the sequential model of one goroutine's action: v is 0 or 1
+//@ func atomic.(*Bool).Swap
+//@   assumed
+//@   params x, new
+//@   ensures result == (old(x.v) != 0) && x.v == (new ? 1 : 0)
+//@   modifies x.v
+//@ func atomic.(*Bool).Load
+//@   assumed
+//@   params x
+//@   ensures result == (x.v != 0)
+//@   modifies nothing
+//@ iface prometheus.Gauge.Set
+//@   assumed
+//@   modifies nothing
+
+// The lease routine: after every tick the worker's `leased` flag says whether the lease renewal of
+// that tick succeeded - any failed renewal (not acquired, lost compare-and-set, store error) clears it.
+//@ func (*worker).Start$1
+//@   nonblocking
+//@   requires *w != nil && (*w).workerFactory != nil && (*w).engine != nil && (*w).engine.Manager != nil && (*w).engine.Manager.store != nil && (*w).metrics.replicationLeased != nil && (*w).log != nil
+//@   modifies (*w).leased.v, family(CH_len), world.clock, (*w).engine.Manager.store.rKey, (*w).engine.Manager.store.rHas, (*w).engine.Manager.store.rPair, (*w).engine.Manager.store.nw, (*w).engine.Manager.store.wKey, (*w).engine.Manager.store.wVal, (*w).engine.Manager.store.wVer, (*w).engine.Manager.store.wDel, (*w).engine.Manager.store.wPrevHas, (*w).engine.Manager.store.wPrev
+//@   loop 0 invariant (*w).workerFactory == old((*w).workerFactory) && (*w).engine == old((*w).engine) && (*w).engine.Manager == old((*w).engine.Manager) && (*w).engine.Manager.store == old((*w).engine.Manager.store)
+//@   loop 0 step [C15.flag] (*w).leased.v == (err == nil ? 1 : 0)
+
+// The replication routine: a poll replicates (calls do) only if the flag read in that same
+// iteration said the lease is held. Callees of the routine are summarised by what they may write
+// (ASSUMED frames; none of them writes the worker's `leased` flag).
+//@ func (*worker).tableState
+//@   assumed
+//@   modifies nothing
+//@ func (*worker).do
+//@   assumed
+//@   modifies family(CH_len), allfields(replicationThrottle)
+//@ func (*worker).recover
+//@   assumed
+//@   modifies family(CH_len)
+//@ func (tableQueueLenStore).Max
+//@   assumed
+//@   modifies nothing
+//@ func (*replicationThrottle).current
+//@   assumed
+//@   modifies nothing
+//@ func (*replicationThrottle).up
+//@   assumed
+//@   modifies t.speed
+//@ func (*replicationThrottle).down
+//@   assumed
+//@   modifies t.speed
+
+//@ func (*worker).Start$3
+//@   maypanic
+//@   requires *w != nil && (*w).workerFactory != nil && (*w).engine != nil && (*w).engine.Manager != nil && (*w).engine.Manager.store != nil && (*w).log != nil && (*w).recoverySemaphore != nil
+//@   modifies allfields(worker), allfields(replicationThrottle), family(CH_len), world.clock, (*w).engine.Manager.store.rKey, (*w).engine.Manager.store.rHas, (*w).engine.Manager.store.rPair, (*w).engine.Manager.store.nw, (*w).engine.Manager.store.wKey, (*w).engine.Manager.store.wVal, (*w).engine.Manager.store.wVer, (*w).engine.Manager.store.wDel, (*w).engine.Manager.store.wPrevHas, (*w).engine.Manager.store.wPrev
+//@   before replication.(*worker).do assert [C15.gate] (*w).leased.v != 0
+//@   loop 0 invariant t != nil && (*w).workerFactory == old((*w).workerFactory) && (*w).engine == old((*w).engine) && (*w).engine.Manager == old((*w).engine.Manager) && (*w).engine.Manager.store == old((*w).engine.Manager.store) && (*w).log == old((*w).log) && (*w).recoverySemaphore == old((*w).recoverySemaphore)
